@@ -363,6 +363,37 @@ Example interlock_notify_example :
   ws s = [WDone] /\ cs s = [CDoneNotify] /\ ac s = 1.
 Proof. vm_compute. auto. Qed.
 
+(* 3b.  Close does not wait for c.out while a Write is in flight.  A Write holds c.out's mutex for its whole duration -
+   possibly parked in the transport because the peer does not read - and closeNotify() needs that mutex.  In the
+   interlock model a Close call is on the close_notify path only if it won the CAS with x = 0; then, in EVERY reachable
+   state of every schedule, no Write call is inside the record layer (none was at the CAS, none enters afterwards): the
+   mutex Close asks for is not held by a Write, so Close cannot be blocked by a stalled Write, and a Close that does
+   find a Write in flight returns c.conn.Close() at once, which makes the stalled Write fail.  Tie to the source: the
+   condition of that shortcut in the current Conn.Close is the one modelled ("x != 0"; the translator reads it). *)
+Theorem conn_close_never_waits_for_a_write :
+  (forall (nw nc : nat) (sched : list (nat + nat)) j p,
+      let s := arun (ainit nw nc) sched in
+      nth_error (cs s) j = Some p -> on_notify_path p = true -> count w_in (ws s) = 0)
+  /\ gen_close_shortcut_cond = close_shortcut_modelled.
+Proof.
+  split; [|exact close_shortcut_spec].
+  intros nw nc sched j p s. exact (arun_ninv sched _ (ainit_inv nw nc) (ainit_ninv nw nc) j p).
+Qed.
+Print Assumptions conn_close_never_waits_for_a_write.
+
+(* non-vacuity: one Write inside, then Close: the real step function takes the quiet path; a Close that always went to
+   closeNotify (what narrowing the shortcut to "handshake not complete" does on an established connection) would
+   be on the close_notify path with the Write still inside - waiting for the mutex that Write holds *)
+Example close_shortcut_matters :
+  let s := arun (ainit 1 1) [inl 0; inl 0; inr 0; inr 0] in
+  nth_error (ws s) 0 = Some WIn /\ nth_error (cs s) 0 = Some (CWon 2)
+  /\ nth_error (cs (cstep s 0)) 0 = Some CDoneQuiet
+  /\ nth_error (cs (cstep_always_notify s 0)) 0 = Some CDoneNotify
+  /\ count w_in (ws (cstep_always_notify s 0)) = 1
+  /\ nth_error (cs (arun (ainit 1 1) [inr 0; inr 0; inr 0; inl 0; inl 0])) 0 = Some CDoneNotify
+  /\ nth_error (ws (arun (ainit 1 1) [inr 0; inr 0; inr 0; inl 0; inl 0])) 0 = Some WErrClosed.
+Proof. vm_compute. auto 8. Qed.
+
 (* ---------------------------------------------------------------------------------------------------------- *)
 (* 4.  Absence of deadlock on mutexes (Conc/LockOrder.v).  [ordered rank nmut nonce bound [] c]: the thread takes a
    lock only while every lock it holds has a strictly smaller rank (so never one it holds: Go's mutexes are not
